@@ -77,6 +77,21 @@ def _value_of(n):
     return n
 
 
+def _bool_body(n):
+    """the node to read a boolean function's formula from: the whole block when its statements are early returns
+    (`if c { return true; } rest`), else the value expression"""
+    b = H.peel(n, refs=False)
+    if b.get("k") == "block" and b.get("stmts"):
+        def is_early(st):
+            st = H.peel(st, refs=False)
+            if st.get("k") == "semi":
+                st = H.peel(st["e"], refs=False)
+            return st.get("k") == "if" and "else" not in st and any(x.get("k") == "ret" for x in H.walk(st["then"]))
+        if all(is_early(st) for st in b["stmts"]):
+            return b
+    return _value_of(n)
+
+
 def _chain(n):
     """method-call chain `root.a().b()` -> ([a, b] in application order, root)"""
     n = H.peel(n)
@@ -208,7 +223,7 @@ def _chain_rules(c, R, rid, gsm, spec):
             ok_chain = False
             break
         if nm == "filter":
-            filters.append(B.formula(_value_of(cl["body"]), atom_factory(env)))
+            filters.append(B.formula(_bool_body(cl["body"]), atom_factory(env)))
         elif nm == "filter_map" and _then_some(cl) is not None:
             # `filter_map(|item| <bool>.then_some(<tuple>))` == `filter(|item| <bool>).map(|item| <tuple>)`
             cond, tup = _then_some(cl)
@@ -670,6 +685,14 @@ def _potential_rules(c, duke, R, rid, ipb, compat, spec):
     if R.anchor(rid, "is_potential_bridge: `match (bridge.return_descriptor, specialized.return_descriptor)`", len(tabs) == 1, sp=ipb["sp"]):
         m, pos = tabs[0]
         v = H.peel(_value_of(body))
+        b0 = H.peel(body, refs=False)
+        if b0.get("k") == "block" and "tail" not in b0 and b0.get("stmts"):
+            # `..; return Ok(x);` as the last statement is the tail value `Ok(x)`
+            last = H.peel(b0["stmts"][-1], refs=False)
+            if last.get("k") == "semi":
+                last = H.peel(last["e"], refs=False)
+            if last.get("k") == "ret" and "e" in last:
+                v = H.peel(last["e"])
         ok_res = v.get("k") == "call" and (H.ctor_of(v) or (None, None))[1] == "Ok" and H.peel(resolve(v["args"][0])) is m
         R.inst(rid, "potential:return:result-is-the-table", ok_res, sp=m["sp"], detail="after the parameter checks the answer is the return-type table")
         hook = {"are_types_bridge_compatible": lambda args: T.V("compat", *args[1:])}
